@@ -28,6 +28,13 @@ def run_shard(spec, acc):
 
 
 def replay(case, acc):
+    if 'late_quote' in case:
+        from qsmon import core
+        try:
+            brokerwl.late_quote_case(case['late_quote'], acc)
+        except core.Violation as v:
+            acc.violation(v, case)
+        return
     brokerwl.run_case(case, acc, PROP)
 
 
